@@ -58,6 +58,8 @@ def genHandlers : List Handler := [
   Mir.Gen.Hierarchy.handler,
   Mir.Gen.ChordSeg.handler,
   Mir.Gen.TrMatch.handler,
+  Mir.Gen.TrVel.handler,
+  Mir.PyTV.handler,
   Mir.Gen.Melody.handler,
   Mir.PyMel.handler,
   Mir.Gen.Validators.handler,
